@@ -694,6 +694,9 @@ theorem mergeDoc_full (cx : Ctx) (swf : StoreWF3 cx.blocks)
     (hk : KInv cx.blocks (r.doc c.doc)) (hli : LinkInv cx.blocks (r.doc c.doc)) :
     WalkFacts cx.blocks (r.doc c.doc).heads c.id
       (sortByHeight (loadComposites cx.blocks (r.doc c.doc).heads (cx.blocks.length + 1) c.id ([], [])).1) ∧
+    (∀ e ∈ flatSeq cx.blocks
+      (sortByHeight (loadComposites cx.blocks (r.doc c.doc).heads (cx.blocks.length + 1) c.id ([], [])).1),
+      ElemOK cx.blocks e) ∧
     KInv cx.blocks ((mergeDoc cx r c).doc c.doc) ∧
     (∀ k t, Reach cx.blocks (headsOf ((mergeDoc cx r c).doc c.doc) k) t ↔
       (Reach cx.blocks (headsOf (r.doc c.doc) k) t ∨
@@ -790,7 +793,7 @@ theorem mergeDoc_full (cx : Ctx) (swf : StoreWF3 cx.blocks)
   have := fold_docStep bs wf s0 (flatSeq bs L) [] s0 hk (by intro k t; simp) rfl
     (by simpa using hok) hready
   simp only [List.nil_append] at this
-  exact ⟨wfacts, this.1, this.2.1, this.2.2⟩
+  exact ⟨wfacts, hok, this.1, this.2.1, this.2.2⟩
 
 end Defra.Crdt
 
